@@ -192,9 +192,51 @@ def run(tier, seed, replay=None):
     for i in bad['sort_spec'][:1]:
         res.violation('sort_head', 'first candidate of _sort_execution_orders is not the order the path touches first',
                       {'orders': sort_cases[i][0], 'candles': sort_cases[i][1], 'implementation_returned_ids': sort_cases[i][2]})
-    try:
-        from . import engine
-        engine.c08_sessions(res, tier, seed)
-    except ImportError:
-        pass
+    sbad, n_minutes, n_multi = sessions(res, rng, tier, hdr)
+    res.extra.update({'session_minutes_with_fills': n_minutes, 'session_minutes_with_several_fills': n_multi})
+    for b in sbad[:1]:
+        res.violation('session_fill_order', 'fills inside one minute of a real backtest do not follow the open-low-high-close / open-high-low-close path', b)
     return res.finish()
+
+
+def sessions(res, rng, tier, hdr):
+    """real 1m-route backtests (normal simulator): the LIMIT/STOP fills of every minute, in execution order, against the candle's path"""
+    from . import engine as E
+    cases, meta = [], []
+    n = 20 if tier == 'quick' else 200
+    for k in range(n):
+        sc = E.gen_script(rng, rng.randrange(1 << 30))
+        sc.update({'points': rng.choice([2, 3]), 'offs': [-3, 3, 0, -1, 1, 2, -2], 'exit_points': rng.choice([1, 2]), 'sl_dist': rng.choice([2, 3]),
+                   'tp_dist': rng.choice([2, 3]), 'digest': False, 'liquidate_every': 0, 'cancel_entry': 'never'})
+        cs = E.gen_candles(rng, 150, style=rng.choice(['spiky', 'choppy', 'walk']))
+        out = E.run_session({'BTC-USDT': cs}, [('BTC-USDT', '1m')], scripts={'BTC-USDT': sc}, leverage=5, fee=0.0, fast=False)
+        if out['error'] and not E.benign_error(out['error']):
+            continue
+        tr = out['trace']
+        typ = {e['id']: (e['type'], e['price']) for e in tr if e['k'] == 'submit'}
+        by_t = {}
+        for e in tr:
+            if e['k'] == 'execute' and e['was'] == 'ACTIVE' and typ.get(e['id'], ('MARKET',))[0] in ('LIMIT', 'STOP'):
+                by_t.setdefault(e['t'], []).append(typ[e['id']][1])
+        ts = {c[0]: i for i, c in enumerate(cs)}
+        for t, prices in by_t.items():
+            i = ts.get(t - E.M)
+            if i is None:
+                continue
+            c = list(cs[i])
+            if i > 0:                                   # the documented gap normalisation
+                pc = cs[i - 1][2]
+                if pc < c[1]: c[1] = pc; c[4] = min(pc, c[4])
+                elif pc > c[1]: c[1] = pc; c[3] = max(pc, c[3])
+            cases.append((c, prices)); meta.append({'minute': t - E.M, 'candle_after_gap_fix': c, 'fill_prices_in_order': prices, 'script': sc})
+    if not cases:
+        return [], 0, 0
+    body = ';\n'.join(f'({cnd(c)}, {C.clist([qc(p) for p in ps])})' for c, ps in cases)
+    rc, out = C.coq_eval('c08_sessions', hdr + f'Definition cs : list minute_case := [\n{body}\n].\nEval vm_compute in (bad_indices (map fills_follow_path cs)).\n')
+    r = C.parse_results(out)
+    ok = rc == 0 and len(r) == 1
+    res.oblige('session minutes evaluated by Coq (Spec.PathSpec.cut on the implementation fills)', ok, out[-1200:])
+    bad = [meta[i] for i in (C.parse_nat_list(r[0]) if ok else [])]
+    res.add_cases(len(cases), len({str(c) for c in cases if len(c[1]) > 1}), [{'minute': meta[0]}] if meta else [],
+                  'real 1m-route sessions with multi-point entries and exit ladders on spiky candles: every minute with LIMIT/STOP fills')
+    return bad, len(cases), sum(1 for c in cases if len(c[1]) > 1)
